@@ -121,6 +121,9 @@ func Alphabet(pc ref.PConfig) []ref.Cmd {
 	add(ref.Cmd{Name: "AUTH no argument", Op: "AUTH", Steps: [][]byte{line("AUTH")}})
 
 	add(ref.Cmd{Name: "STARTTLS", Op: "STARTTLS", Steps: [][]byte{line("STARTTLS")}})
+	// STARTTLS answered 220, then the client sends something that is not a TLS handshake: the connection stays
+	// plaintext in every respect and keeps its state
+	add(ref.Cmd{Name: "STARTTLS + failed handshake", Op: "STARTTLSFAIL", Steps: [][]byte{line("STARTTLS"), line("hello, not a handshake")}})
 	add(ref.Cmd{Name: "QUIT", Op: "QUIT", Steps: [][]byte{line("QUIT")}})
 	return a
 }
@@ -424,11 +427,21 @@ func runLockstepOpt(prefix string, pc ref.PConfig, alpha []ref.Cmd, hist []int, 
 			c := alpha[ci]
 			lastClass := 3
 			for k, stepBytes := range c.Steps {
-				if k > 0 && lastClass != 3 {
+				if k > 0 && lastClass != 3 && !(c.Op == "STARTTLSFAIL" && lastClass == 2) {
 					break
 				}
 				out := live.Send(stepBytes)
 				events := live.NewEvents()
+				if c.Op == "STARTTLSFAIL" && k == 1 {
+					// the TLS library may put an alert record on the wire before the server's plaintext reply
+					for len(out) >= 5 && out[0] == 0x15 && out[1] == 0x03 {
+						n := 5 + int(out[3])<<8 + int(out[4])
+						if n > len(out) {
+							break
+						}
+						out = out[n:]
+					}
+				}
 				replies, perr := ref.ParseReplies(out)
 				if c.Op == "STARTTLS" && perr == nil && len(replies) == 1 && replies[0].Code == 220 {
 					if opts != nil && opts.BeforeHandshake != nil {
